@@ -128,6 +128,10 @@ class SimDealer(object):
         if opt == _zmq.IDENTITY:
             self.identity = val
             self.ctx.by_identity[val] = self
+        elif opt == getattr(_zmq, 'CONFLATE', None):
+            # keep only the last message: whatever the owner has not read
+            # yet is overwritten by the next arrival
+            self.conflate = bool(val)
 
     def connect(self, endpoint):
         self.endpoint = endpoint
@@ -153,6 +157,8 @@ class SimDealer(object):
     def _arrive(self, msg):
         if self.closed:
             return
+        if getattr(self, 'conflate', False):
+            del self.inbox[:]
         self.inbox.append(msg)
         if self.stream is not None:
             self.stream._notify()
@@ -178,6 +184,11 @@ class SimPoller(object):
         deadline = sim.now + (timeout or 0) / 1000.0
         ctx.poll_calls += 1
         ctx.pump(lambda: any(s.inbox for s in self.socks), deadline)
+        lag = getattr(ctx, 'client_lag', 0.0)
+        if lag and any(s.inbox for s in self.socks):
+            # the calling thread gets the processor late: what arrives in the
+            # meantime queues up behind the frame that woke it
+            ctx.pump(lambda: False, sim.now + lag)
         return [(s, POLLIN) for s in self.socks if s.inbox]
 
 
